@@ -290,9 +290,25 @@ class C10(core.Check):
         # --- exhaustive small indexes
         small = [("n5", [3, 1, 7, 2, 40], 0), ("n5d", [10, 10, 1, 1, 300], 25)]
         small.append(("n8" if self.quick else "n11", [r.choice([1, 2, 5, 90]) for _ in range(8 if self.quick else 11)], r.choice([0, 17])))
+        if not self.quick:
+            small.append(("n13", [r.choice([1, 3, 9, 200]) for _ in range(13)], 0))
+            # chunk starts / ends on exact powers of ten (digit-count edges of the rendered text): header padded with a dictionary
+            small.append(("n10p", [9000, 90000, 1, 9, 90, 900, 9000 - 1, 2, 5, 890000], 300))
         for name, sizes, ds in small:
             data = make_base(r, sizes, ds)
             p = zckref.parse(data)
+            if name == "n10p":
+                # pad the header so that the first data chunk starts at offset 1000 exactly (then 10000, 100000 follow from the sizes)
+                rr = core.rng(self.seed, "C10", "n10p")
+                tail = 0
+                for _ in range(4):
+                    tail += 1000 - (p.header_len + p.chunks[1]["start"])
+                    if tail < 0:
+                        break
+                    rr2 = core.rng(self.seed, "C10", "n10p")
+                    data = make_base(rr2, sizes, ds, tail=tail)
+                    p = zckref.parse(data)
+                self.count("power_of_ten_layout_reached", int(p.header_len + p.chunks[1]["start"] == 1000))
             n = len(p.chunks)
             vecs = [list(v) for v in itertools.product([0, 1], repeat=n)]
             if ds == 0:  # empty dictionary is always valid: fix that bit to 1
